@@ -326,3 +326,83 @@ func VC_C07_embedded() {
 	verifAssert(vSvcE == nil, "C07.embedded.reset-restores-previous-value")
 	verifReached("C07.embedded")
 }
+
+
+var vOpN07 = [5]string{"op0", "op1", "op2", "op3", "op4"}
+
+// vOps07: number of operations of VC_C07_two_method_history (4 quick; the thorough
+// wrapper sets 5)
+var vOps07 = 4
+
+// VC_C07_two_method_history: histories of operations {apply Alpha, apply Gamma, undo} on
+// one variable through handles obtained before the first operation (the variable's
+// interface mocker and one per-method mocker each) or through fresh chains (one family
+// per epoch); undo is
+// Builder.Reset or the retained interface mocker's Cancel. After every operation each of
+// the two methods reaches its replacement if it was applied since the last undo and
+// notImplement otherwise; with nothing applied the variable holds its previous value.
+func VC_C07_two_method_history() {
+	vEnv()
+	stub.VerifResetMmap()
+	vSvcA = nil
+	t := reflect.TypeOf(&vSvcA).Elem()
+	slot := [2]int{vSlotOf(t, "Alpha"), vSlotOf(t, "Gamma")}
+	names := [2]string{"Alpha", "Gamma"}
+	cbs := [2]interface{}{vCbAlpha, vCbGamma}
+	add := [2]int{1, 3}
+	b := Create()
+	im := b.Interface(&vSvcA)
+	hs := [2]InterfaceMocker{im.Method("Alpha"), im.Method("Gamma")}
+	var live [2]bool
+	epochVia := -1
+	x := verifInt("x")
+	for k := 0; k < vOps07; k++ {
+		op := verifChoice(vOpN07[k], 3)
+		if op < 2 {
+			// one family of handles per epoch (between two undos): mixing a handle from
+			// before a Reset with a fresh post-Reset lookup is two configurations of one
+			// variable, which the property does not order
+			if epochVia < 0 {
+				epochVia = verifChoice(vOpN07[k]+".via", 2)
+			}
+			if epochVia == 0 {
+				hs[op].Apply(cbs[op])
+			} else {
+				b.Interface(&vSvcA).Method(names[op]).Apply(cbs[op])
+			}
+			live[op] = true
+		} else {
+			if verifBool(vOpN07[k] + ".cancel") {
+				im.Cancel()
+			} else {
+				b.Reset()
+			}
+			live = [2]bool{}
+			epochVia = -1
+		}
+		if !live[0] && !live[1] {
+			verifAssert(vSvcA == nil, "C07.two-method.undo-restores-previous-value")
+			continue
+		}
+		verifAssert(vSvcA != nil, "C07.two-method.variable-non-nil")
+		if vSvcA == nil {
+			return
+		}
+		for m := 0; m < 2; m++ {
+			f, recv, notImpl := vDispatch(unsafe.Pointer(&vSvcA), slot[m], "C07.two-method")
+			if !live[m] {
+				verifAssert(notImpl, "C07.two-method.method-not-applied-since-undo-is-notImplement")
+				continue
+			}
+			verifAssert(!notImpl && f != nil, "C07.two-method.applied-method-has-stub")
+			if notImpl || f == nil {
+				continue
+			}
+			got, p := vCall07(f, recv, x)
+			verifAssert(!p && got == x+add[m], "C07.two-method.applied-method-reaches-own-replacement")
+		}
+	}
+	verifReached("C07.two-method")
+}
+
+func VC_C07x_two_method_history() { vOps07 = 5; VC_C07_two_method_history() }
